@@ -45,6 +45,24 @@ theorem storeK_hist (E : Env) (s : Sys) (oid : Oid) (serial : Tid) (data : Recor
         | none => rfl
         | some p => rfl
 
+theorem step_check_sys (E : Env) (s : Sys) (t : TxnId) (oid : Oid) (serial : Tid) :
+    (step E s (.check t oid serial)).sys = s ∨
+    ((step E s (.check t oid serial)).out = .ok ∧
+     (step E s (.check t oid serial)).sys = { s with checked := (oid, serial) :: s.checked }) := by
+  simp only [step]
+  split
+  · by_cases hdel : checkDeleted s oid = true
+    · rw [if_pos hdel]; left; rfl
+    · rw [if_neg hdel]
+      cases curK s.kind s.hist s.base oid with
+      | none => left; rfl
+      | some ct =>
+        simp only
+        split
+        · right; exact ⟨rfl, rfl⟩
+        · left; rfl
+  · left; rfl
+
 /-- in ANY state (reachable or not) the committed history changes only when the lock holder's
     `tpc_finish` prepends its own staged transaction -/
 theorem step_hist (E : Env) (s : Sys) (op : Op) :
@@ -66,12 +84,10 @@ theorem step_hist (E : Env) (s : Sys) (op : Op) :
     · rfl
   | check t oid serial =>
     left
-    simp only [step]
-    split
-    · cases curK s.kind s.hist s.base oid with
-      | none => rfl
-      | some ct => simp only; split <;> rfl
-    · rfl
+    rcases step_check_sys E s t oid serial with h | ⟨_, h⟩ <;> rw [h]
+  | delete t oid serial =>
+    left
+    rcases step_delete_cases E s t oid serial with h | ⟨_, _, _, _, h⟩ <;> rw [h]
   | vote t =>
     left
     simp only [step]
@@ -140,12 +156,10 @@ theorem step_lock (E : Env) (s : Sys) (op : Op) :
     · rfl
   | check t oid serial =>
     left
-    simp only [step]
-    split
-    · cases curK s.kind s.hist s.base oid with
-      | none => rfl
-      | some ct => simp only; split <;> rfl
-    · rfl
+    rcases step_check_sys E s t oid serial with h | ⟨_, h⟩ <;> rw [h]
+  | delete t oid serial =>
+    left
+    rcases step_delete_cases E s t oid serial with h | ⟨_, _, _, _, h⟩ <;> rw [h]
   | vote t =>
     left
     simp only [step]
@@ -199,6 +213,7 @@ theorem step_check_out (E : Env) (k : Kind) (base : Hist) (s : Sys) (h : Inv E k
     (t : TxnId) (oid : Oid) (serial : Tid) :
     (step E s (.check t oid serial)).out =
       if s.lock = some t then
+        if checkDeleted s oid then .keyError else
         match currentTid s.view oid with
         | none => .keyError
         | some ct => if ct = serial then .ok else .readConflict
@@ -208,26 +223,38 @@ theorem step_check_out (E : Env) (k : Kind) (base : Hist) (s : Sys) (h : Inv E k
   rw [hv] at hc
   simp only [step]
   split
-  · rw [hc]
-    cases currentTid s.view oid with
-    | none => rfl
-    | some ct => simp only; split <;> rfl
+  · by_cases hdel : checkDeleted s oid = true
+    · rw [if_pos hdel, if_pos hdel]
+    · rw [if_neg hdel, if_neg hdel, hc]
+      cases currentTid s.view oid with
+      | none => rfl
+      | some ct => simp only; split <;> rfl
   · rfl
 
-theorem step_check_sys (E : Env) (s : Sys) (t : TxnId) (oid : Oid) (serial : Tid) :
-    (step E s (.check t oid serial)).sys = s ∨
-    ((step E s (.check t oid serial)).out = .ok ∧
-     (step E s (.check t oid serial)).sys = { s with checked := (oid, serial) :: s.checked }) := by
-  simp only [step]
-  split
-  · cases curK s.kind s.hist s.base oid with
-    | none => left; rfl
-    | some ct =>
-      simp only
-      split
-      · right; exact ⟨rfl, rfl⟩
-      · left; rfl
-  · left; rfl
+/-- a check that returns ok: the complete effect -/
+theorem step_check_ok (E : Env) (s : Sys) (t : TxnId) (oid : Oid) (serial : Tid)
+    (ho : (step E s (.check t oid serial)).out = .ok) :
+    s.lock = some t ∧ checkDeleted s oid = false ∧ curK s.kind s.hist s.base oid = some serial ∧
+    (step E s (.check t oid serial)).sys = { s with checked := (oid, serial) :: s.checked } := by
+  simp only [step] at ho ⊢
+  by_cases hl : s.lock = some t
+  · rw [if_pos hl] at ho ⊢
+    by_cases hdel : checkDeleted s oid = true
+    · rw [if_pos hdel] at ho; cases ho
+    · rw [if_neg hdel] at ho ⊢
+      cases hc : curK s.kind s.hist s.base oid with
+      | none => rw [hc] at ho; cases ho
+      | some ct =>
+        rw [hc] at ho
+        simp only at ho ⊢
+        by_cases he : ct = serial
+        · rw [if_pos he]
+          refine ⟨hl, ?_, by rw [he], rfl⟩
+          cases hx : checkDeleted s oid with
+          | true => exact absurd hx hdel
+          | false => rfl
+        · rw [if_neg he] at ho; cases ho
+  · rw [if_neg hl] at ho; cases ho
 
 theorem step_vote_out (E : Env) (k : Kind) (base : Hist) (s : Sys) (h : Inv E k base s)
     (t : TxnId) (hl : s.lock = some t) : (step E s (.vote t)).out = .voted s.resolved := by
@@ -436,6 +463,10 @@ theorem step_keeps_checked (E : Env) (k : Kind) (base : Hist) (s : Sys) (hi : In
       rcases step_check_sys E s t' oid serial with h | ⟨_, h⟩
       · rw [h]; exact ⟨hl, fun p hp => hp⟩
       · rw [h]; exact ⟨hl, fun p hp => List.mem_cons_of_mem _ hp⟩
+    | delete t' oid serial =>
+      rcases step_delete_cases E s t' oid serial with h | ⟨_, _, _, _, h⟩
+      · rw [h]; exact ⟨hl, fun p hp => hp⟩
+      · rw [h]; exact ⟨hl, fun p hp => hp⟩
     | vote t' =>
       simp only [Op.actor] at ha
       subst ha
